@@ -419,6 +419,7 @@ func (s *Sim) runRoot(res *Result) {
 		ev.fn()
 	}
 	synctest.Wait()
+	s.sampleAll()
 	s.log(Rec{Kind: "judge"})
 	s.judgeSnapshot()
 	s.teardown()
